@@ -268,6 +268,28 @@ def oracle(ctx):
         if got != want:
             res.oracle_failures.append(dict(op=op, input=text, impl_output=str(av)[:500],
                                             oracle_expectation=f'{key} ({"single-valued" if kind == "str" else "boolean" if kind == "bool" else "all values"}) after {hist}: {flag} {want}, got {got}'))
+    # the effective value is also what *other* units see: naming keys with a history (two values; value, reset, value), and a
+    # unit that refers to the one that has the key — its command carries the effective name, never a discarded one
+    import props.c04 as c04
+    hops, hmeta = [], []
+    for ty, lines, referrer, ok, what in c04.HANDED_ON:
+        key = lines.split('=')[-2].split('\n')[-1]
+        hists = [['old-name', '', 'new-name'], ['', 'old-name', '', 'new-name']]
+        if not (ty == 'build'):
+            hists.append(['old-name', 'new-name'])   # (a .build's ImageTag is a list: without a reset the first tag names the image)
+        for hist in hists:
+            body = lines.replace(key + '={}', '\n'.join(f'{key}={v}' for v in hist))
+            t0 = '[' + G.SEC[ty] + ']\n' + body + '\n'
+            t1 = '[Container]\n' + referrer + '\n'
+            hops.append(f'convert\t0\t0,1\t{hx("/q/n." + ty)}\t{hx(t0)}\t{hx("/q/r.container")}\t{hx(t1)}')
+            hmeta.append((ty, key, hist, t0 + '--- r.container\n' + t1, ok, what))
+    houts = ctx.impl(hops)
+    havs = c02.argv(ctx, [('ok ' + a[3:].split(' | ')[-1]) if a.startswith('ok ') else a for a in houts])
+    for (ty, key, hist, text, ok, what), op, a, av in zip(hmeta, hops, houts, havs):
+        res.oracle_evals += 1
+        if av is None or not ok('new-name', av) or any('old-name' in x for x in av):
+            res.oracle_failures.append(dict(op=op, input=text, impl_output=str(av)[:500] if av else core.dec_line(a)[:500],
+                                            oracle_expectation=f'{key} of the .{ty} after {hist} is new-name: the referring container has {what} with that name and no trace of the discarded one'))
     # the same histories distributed over the main file and drop-ins (one, two, in the unit's or the template's drop-in directory,
     # in one or two search directories — name order decides, not directory order), through the real loader
     import filespell
